@@ -16,14 +16,19 @@ Definition close (a b tol : float) : bool := same_bits a b || PrimFloat.leb (Pri
 Definition xunc : Type := bool * float * float * Z * bool.
 Definition xobs : Type := bool * float * float * option xunc.
 
+(* a tolerance of +infinity marks an observable the property leaves unconstrained AND the model does not cover
+   (numpy.ma arithmetic on a masked-array input without masked valid elements, in cells whose neighbours carry
+   non-finite data or whose estimator is 0/0): it is not compared *)
+Definition skip (tol : float) : bool := PrimFloat.eqb tol infinity.
+
 Definition chk_obs (exact : bool) (o : obs float) (x : xobs) : bool :=
   let '(xm, xv, tv, xu) := x in
   let cl := fun a b t => if exact then same_bits a b else close a b t in
-  Bool.eqb (o_mask o) xm && (xm || cl (o_val o) xv tv) &&
+  Bool.eqb (o_mask o) xm && (xm || skip tv || cl (o_val o) xv tv) &&
   match xu with
   | None => true
   | Some (sm, sv, ts, cn, cm) =>
-      Bool.eqb (o_sd_mask o) sm && (sm || cl (o_sd o) sv ts) &&
+      (skip ts || (Bool.eqb (o_sd_mask o) sm && (sm || cl (o_sd o) sv ts))) &&
       Bool.eqb (o_cnt_mask o) cm && (cm || (o_cnt o =? cn))
   end.
 
